@@ -449,6 +449,20 @@ def single_op_builders(rng, tier):
         for _ in range(3):
             c = [rng.random() < 0.5 for _ in range(int(np.prod(cs)))]
             prog([sa, sb], "where", {"cond": c, "cond_shape": list(cs)})
+    # nnet layers that are bilinear / selections: conv_nd (all stride / padding / dilation forms that tile) and max_pool
+    for sx, sw, variants in (((1, 1, 5), (1, 1, 2), [dict(stride=1), dict(stride=3), dict(stride=1, padding=1), dict(stride=1, dilation=2), dict(stride=2, padding=2, dilation=2), dict(stride=[1], padding=[1])]),
+                             ((2, 2, 4), (3, 2, 2), [dict(stride=2), dict(stride=1, padding=1), dict(stride=1), dict(stride=2, dilation=2)]),
+                             ((1, 2, 3, 3), (2, 2, 2, 2), [dict(stride=1), dict(stride=1, padding=1), dict(stride=[1, 1], padding=[1, 0]), dict(stride=1, padding=[0, 1])]),
+                             ((1, 1, 4, 3), (1, 1, 2, 1), [dict(stride=[2, 1]), dict(stride=[1, 2]), dict(stride=1, dilation=[2, 1]), dict(stride=1, padding=1, dilation=[2, 2])]),
+                             ((1, 1, 3, 3), (1, 1, 3, 3), [dict(stride=1), dict(stride=2, padding=1)]),
+                             ((1, 1, 2, 2, 3), (1, 1, 1, 2, 2), [dict(stride=1), dict(stride=[1, 1, 1], padding=[0, 0, 1])])):
+        for kw_ in variants:
+            prog([sx, sw], "conv_nd", kw_)
+            prog([sx], "conv_nd", kw_, extra=[("array", sw, rng_arr(rng, sw))])
+    for sx, pool, strides in (((1, 1, 4), [2], [2, 1]), ((2, 2, 5), [3], [1, 2]), ((6,), [2], [2, 1, 4]), ((1, 2, 4, 4), [2, 2], [2, 1, [2, 1], [1, 2]]), ((2, 1, 5, 4), [3, 2], [[2, 1], [1, 2], 2, 1]),
+                              ((3, 4, 4), [2, 2], [1, 2]), ((4, 4), [2, 2], [2]), ((2, 3, 4), [2], [2, 1]), ((1, 3, 3, 4), [3, 3, 2], [1, [1, 1, 2]])):
+        for st_ in strides:
+            prog([sx], "max_pool", {"pool": pool, "stride": st_}, distinct=True)
     # repeated operands (one tensor feeding several operand slots of the same operation)
     for fn in ("add", "multiply", "subtract"):
         b = progs.Builder(rng)
